@@ -83,6 +83,12 @@ theorem per_label_tail_eq : MeasImp.opf_accuracy_per_label_tail = "errors /= cou
   decide +kernel
 theorem purity_tail_eq : MeasImp.purity_tail = "<numerator> / <denominator>" := by decide +kernel
 
+/-- `normalize` as written: column mean, POPULATION standard deviation (`np.std`, `ddof = 0`), `(value - mean) / std` — the
+text the model `normalizeColG` (and the theorems `c20_normalize*` of Props/C20.lean) mirror column by column. -/
+theorem normalize_body_eq : MeasImp.normalize_body =
+    "mean = np.mean(array, axis=0)\nstd = np.std(array, axis=0)\nnorm_array = (array - mean) / std\nreturn norm_array" := by
+  decide +kernel
+
 /-! ### non-vacuity -/
 example : MeasImp.confusion_matrix (natArr [0, 0, 1, 1, 2, 2, 2]) (natArr [0, 1, 1, 1, 2, 0, 2]) =
     some #[#[1, 1, 0], #[0, 2, 0], #[1, 0, 2]] := by
